@@ -27,9 +27,11 @@ FILES=$(cd $WT && git diff --name-only | xargs -n1 dirname | sort -u)
 (cd $WT && $GO test -vet=off -count=1 -run "^($TESTRE)\$" ./$PKG/ ) >>$LOG 2>&1; R_PATCHED=$?
 rm -f $DEMO
 R_EXIST=0
+if [ -z "${SEEDCHECK_SKIP_EXISTING:-}" ]; then
 for d in $FILES; do
   (cd $WT && timeout 2400 $GO test -vet=off -count=1 ./$d/ ) >>$LOG 2>&1 || R_EXIST=1
 done
+else R_EXIST=skipped; fi
 (cd /verif && VERIF_REPO=$WT ./check $P) > $S/check.out 2>&1; R_CHECK=$?
 cat $S/check.out >>$LOG
 echo "$P $(basename $S): demo_clean_rc=$R_CLEAN demo_patched_rc=$R_PATCHED existing_tests_rc=$R_EXIST check_rc=$R_CHECK $(grep -c VIOLATION $S/check.out) violation-lines"
